@@ -124,6 +124,33 @@ def annotate_half(R, func, loop, axis, other_loops):
             f'for c in {touched}: c.{axis} = tuple(c.{axis})', src(fin[0])[:100] if fin else 'no finalisation loop')
 
 
+def _adjacent_grouping(R, func, loops, axis):
+    """``for k, group in itertools.groupby(context.<axis>, key): <concept>.<axis> = tuple(group)``: groupby merges only
+    *adjacent* items with equal keys and the context order is the caller's, so two equal rows (columns) separated by a
+    different one give two runs and the second assignment replaces the first.  Decided when the iterable is the context's
+    own sequence (not sorted by the same key) and the body overwrites the label; otherwise not judged."""
+    ctx = func.params[0]
+    for l in loops:
+        it = l.iter
+        if not (isinstance(it, ast.Call) and chain(it.func) and chain(it.func)[-1] == 'groupby' and it.args):
+            continue
+        if chain(it.args[0]) != [ctx, axis]:
+            continue
+        if not (isinstance(l.target, ast.Tuple) and len(l.target.elts) == 2 and all(isinstance(e, ast.Name) for e in l.target.elts)):
+            continue
+        grp = l.target.elts[1].id
+        over = [s for s in l.body if isinstance(s, ast.Assign) and len(s.targets) == 1 and isinstance(s.targets[0], ast.Attribute)
+                and s.targets[0].attr == axis and any(isinstance(n, ast.Name) and n.id == grp for n in ast.walk(s.value))]
+        if len(l.body) == 1 and over:
+            R.bad('LABELLING', func, l, f'{axis} labels: every {axis[:-1] if axis != "properties" else "property"} with the same concept is collected, wherever it stands',
+                  f'one pass over {ctx}.{axis} appending to the concept\'s list (order of the context, any position)',
+                  f'{src(it)[:80]} over the unsorted context order, label overwritten per run',
+                  extra={'consequence': 'itertools.groupby merges adjacent equal keys only: equal rows/columns separated by a different one '
+                                        'form two runs and the later run replaces the earlier label'})
+            return True
+    return False
+
+
 def annotate_rules(model, R):
     func = model.func('lattices.Data._annotate')
     loops = [s for s in func.body if isinstance(s, ast.For)]
@@ -136,6 +163,8 @@ def annotate_rules(model, R):
     for axis in ('objects', 'properties'):
         ls = [l for l in label_loops if any(isinstance(n, ast.Attribute) and n.attr == axis and isinstance(n.ctx, ast.Store)
                                            for n in ast.walk(l))]
+        if len(ls) != 1 and _adjacent_grouping(R, func, loops, axis):
+            continue
         if len(ls) != 1:
             R.unknown('LABELLING', func, func.node, f'{axis} labels', f'{len(ls)} labelling loops writing .{axis}')
             continue
